@@ -1,4 +1,4 @@
-HOOK_COMMITS = ['6e462db', '4c6b7d2', '8782511']
+HOOK_COMMITS = ['6e462db', '4c6b7d2', '8782511', '820825c']
 
 _K = 'Trusted: Kani/CBMC, Verus/z3/vstd, the std and dependency code below the functions under contract. '
 
